@@ -97,6 +97,7 @@ check_C06() {
   build_proxy
   wire_part wire relay
   wire_part multi multilisten
+  wire_part fault pinfault
 }
 
 check_C01() {
